@@ -53,6 +53,28 @@ pub fn main(args: &[String]) -> i32 {
         let t0 = std::time::Instant::now();
         let o = expand_str(d, item);
         let mut j = outcome_json(&id, &o, t0.elapsed().as_micros());
+        if v.get("where").and_then(|c| c.as_bool()).unwrap_or(false) {
+            // only the where-predicates of the first impl (C04 compares nothing else): saves shipping and re-parsing the text
+            if let Outcome::Ok(t) = &o {
+                use quote::ToTokens;
+                let preds: Vec<String> = syn::parse_str::<syn::File>(t)
+                    .ok()
+                    .and_then(|f| {
+                        f.items.into_iter().find_map(|it| match it {
+                            syn::Item::Impl(imp) => Some(
+                                imp.generics
+                                    .where_clause
+                                    .map(|w| w.predicates.iter().map(|p| p.to_token_stream().to_string()).collect())
+                                    .unwrap_or_default(),
+                            ),
+                            _ => None,
+                        })
+                    })
+                    .unwrap_or_else(|| vec!["UNPARSABLE".to_string()]);
+                j["where"] = serde_json::json!(preds);
+                j["out"] = serde_json::json!("");
+            }
+        }
         if v.get("canon").and_then(|c| c.as_bool()).unwrap_or(false) {
             if let Outcome::Ok(t) = &o {
                 j["canon"] = serde_json::json!(canonical_items(t));
